@@ -20,28 +20,43 @@ Ltac ifs :=
          | |- context [if ?b then _ else _] => let E := fresh "E" in destruct b eqn:E
          end.
 
+Lemma pings_of_app q1 q2 : pings_of (q1 ++ q2) = pings_of q1 ++ pings_of q2.
+Proof. induction q1 as [|[s| |] q1 IH]; simpl; auto. now rewrite IH. Qed.
+
+Lemma pings_of_filter keep q :
+  (forall s, keep (DPing s) = true) -> pings_of (filter keep q) = pings_of q.
+Proof.
+  intros Hk. induction q as [|[s| |] q IH]; simpl; auto.
+  - rewrite Hk. simpl. now rewrite IH.
+  - destruct (keep DMsg); simpl; auto.
+  - destruct (keep DNoop); simpl; auto.
+Qed.
+
 Section Compose.
   Variable c : cfg.
   Variable l : link.
   Hypothesis Hc : cfg_ok c.
   Hypothesis Hl : 0 <= lDown l /\ 0 <= lUp l /\ lDown l + lUp l + 2 * cD c < cT c.
+  (** the only thing needed of the carry-over at a transport swap: pings survive it *)
+  Hypothesis Hkeep : forall s, lKeep l (DPing s) = true.
   Local Notation I := (cI c). Local Notation T := (cT c). Local Notation D := (cD c).
   Local Notation Ld := (lDown l). Local Notation Lu := (lUp l).
 
-  (** The heartbeat cycle: (A) server asleep, nothing in flight; (B) ping in flight; (C) pong in
-      flight; (D) pong in the mailbox.  P = xlast = time of the latest ping delivery. *)
-  Definition xinv (st : xst) (now : Z) : Prop :=
-    let P := xlast st in
+  (** The heartbeat cycle: (A) server asleep, no ping in the downlink; (B) ping in the downlink
+      (queued on polling, in flight, or being carried over by a swap); (C) pong in flight; (D) pong in
+      the mailbox.  P = xlast = time of the latest ping delivery.  Messages and NOOPs in the
+      downlink are irrelevant: only [pings_of (xdown st)] matters. *)
+  Definition xinv_core (ss : sst) (cs : cst) (pq gq : list Z) (P now : Z) : Prop :=
     P <= now /\
-    match cph (xc st) with
+    match cph cs with
     | CArmed a => a <= now /\
-        match cmb (xc st) with
+        match cmb cs with
         | None => P <= a
         | Some d => d <= P /\ d < a + I + T
         end
     | CClosed _ _ => False
     end /\
-    match sph (xs st), smb (xs st), xping st, xpong st with
+    match sph ss, smb ss, pq, gq with
     | SSleep s, None, [], [] => s <= now /\ s <= P + Lu + D
     | SAwait s, None, [s'], [] => s' = s /\ s <= now /\ s <= P + Lu + I + 2 * D
     | SAwait s, None, [], [p] => p = P /\ s <= p /\ p <= s + Ld
@@ -49,37 +64,160 @@ Section Compose.
     | _, _, _, _ => False
     end.
 
+  Definition xinv (st : xst) (now : Z) : Prop :=
+    xinv_core (xs st) (xc st) (pings_of (xdown st)) (xpong st) (xlast st) now.
+
+  (** time may pass (all clauses mentioning [now] are upper bounds by it) *)
+  Lemma xinv_core_mono ss cs pq gq P now t :
+    xinv_core ss cs pq gq P now -> now <= t -> xinv_core ss cs pq gq P t.
+  Proof.
+    intros (HP & Hcl & Hsv) Hn. unfold xinv_core. split; [lia|]. split.
+    - destruct (cph cs); [|contradiction]. destruct Hcl as [Ha Hcm]. split; [lia|exact Hcm].
+    - destruct (sph ss) as [s|s|]; destruct (smb ss) as [d|]; destruct pq as [|x [|y pq]];
+        destruct gq as [|u [|v gq]]; simpl in *; try contradiction.
+      + destruct Hsv as (H1 & H2). split; lia.
+      + destruct Hsv as (H1 & H2 & H3 & H4). repeat split; lia.
+      + destruct Hsv as (H1 & H2 & H3). repeat split; lia.
+      + destruct Hsv as (H1 & H2 & H3). repeat split; lia.
+  Qed.
+
+  Ltac conj_all := (try match goal with Hsv : _ /\ _ |- _ => lazymatch goal with Hsv' : _ |- _ => idtac end end).
+
+  Ltac finish Hs :=
+    unfold sstep, cstep, deposit in Hs; simpl in Hs;
+    ifs; try discriminate;
+    inversion Hs; subst; clear Hs; zb; unfold xinv_core; simpl; ifs; zb;
+    repeat split; try lia; try congruence.
+
+  Definition wcond ss cs pq gq t : bool :=
+    within (sdeadline c ss) t && within (cdeadline c cs) t
+      && within (head_deadline pq Ld) t && within (head_deadline gq Lu) t.
+
+  Lemma core_wake ss cs pq gq P now t ss' :
+    xinv_core ss cs pq gq P now -> now <= t -> wcond ss cs pq gq t = true ->
+    sstep c ss t SWake = Some ss' -> xinv_core ss' cs (pq ++ [t]) gq P t.
+  Proof. intros Hinv Hn Hw Hs. unfold wcond in Hw. destruct Hc as (HI & HT & HD); destruct Hl as (HLd & HLu & HL);
+    destruct Hinv as (HP & Hcl & Hsv); destruct ss as [sp sm]; destruct cs as [cp cm]; simpl in *;
+    destruct cp as [a|]; [|contradiction]; destruct Hcl as [Ha Hcm];
+    unfold sdeadline, cdeadline, head_deadline, within in Hw; simpl in Hw.
+    destruct sp as [s|s|]; destruct sm as [d|]; destruct pq as [|x [|y pq]]; destruct gq as [|u [|v gq]];
+      try contradiction; decompose [and] Hsv; clear Hsv; subst; destruct cm as [dm|]; finish Hs. Qed.
+
+  Lemma core_take ss cs pq gq P now t ss' :
+    xinv_core ss cs pq gq P now -> now <= t -> wcond ss cs pq gq t = true ->
+    sstep c ss t STake = Some ss' -> xinv_core ss' cs pq gq P t.
+  Proof. intros Hinv Hn Hw Hs. unfold wcond in Hw. destruct Hc as (HI & HT & HD); destruct Hl as (HLd & HLu & HL);
+    destruct Hinv as (HP & Hcl & Hsv); destruct ss as [sp sm]; destruct cs as [cp cm]; simpl in *;
+    destruct cp as [a|]; [|contradiction]; destruct Hcl as [Ha Hcm];
+    unfold sdeadline, cdeadline, head_deadline, within in Hw; simpl in Hw.
+    destruct sp as [s|s|]; destruct sm as [d|]; destruct pq as [|x [|y pq]]; destruct gq as [|u [|v gq]];
+      try contradiction; decompose [and] Hsv; clear Hsv; subst; destruct cm as [dm|]; finish Hs. Qed.
+
+  Lemma core_sapp ss cs pq gq P now t ss' :
+    xinv_core ss cs pq gq P now -> now <= t -> wcond ss cs pq gq t = true ->
+    sstep c ss t SApp = Some ss' -> xinv_core ss' cs pq gq P t.
+  Proof. intros Hinv Hn Hw Hs. unfold sstep in Hs. destruct (sph ss); inversion Hs; subst.
+    all: eapply xinv_core_mono; eauto. Qed.
+
+  Lemma core_stimeout ss cs pq gq P now t ss' :
+    xinv_core ss cs pq gq P now -> now <= t -> wcond ss cs pq gq t = true ->
+    sstep c ss t STimeout = Some ss' -> False.
+  Proof. intros Hinv Hn Hw Hs. unfold wcond in Hw. destruct Hc as (HI & HT & HD); destruct Hl as (HLd & HLu & HL);
+    destruct Hinv as (HP & Hcl & Hsv); destruct ss as [sp sm]; destruct cs as [cp cm]; simpl in *;
+    destruct cp as [a|]; [|contradiction]; destruct Hcl as [Ha Hcm];
+    unfold sdeadline, cdeadline, head_deadline, within in Hw; simpl in Hw.
+    destruct sp as [s|s|]; destruct sm as [d|]; destruct pq as [|x [|y pq]]; destruct gq as [|u [|v gq]];
+      try contradiction; decompose [and] Hsv; clear Hsv; subst;
+      unfold sstep in Hs; simpl in Hs; destruct cm as [dm|]; ifs; try discriminate; zb; lia. Qed.
+
+  Lemma core_rearm ss cs pq gq P now t cs' :
+    xinv_core ss cs pq gq P now -> now <= t -> wcond ss cs pq gq t = true ->
+    cstep c cs t CRearm = Some cs' -> xinv_core ss cs' pq gq P t.
+  Proof. intros Hinv Hn Hw Hs. unfold wcond in Hw. destruct Hc as (HI & HT & HD); destruct Hl as (HLd & HLu & HL);
+    destruct Hinv as (HP & Hcl & Hsv); destruct ss as [sp sm]; destruct cs as [cp cm]; simpl in *;
+    destruct cp as [a|]; [|contradiction]; destruct Hcl as [Ha Hcm];
+    unfold sdeadline, cdeadline, head_deadline, within in Hw; simpl in Hw.
+    destruct sp as [s|s|]; destruct sm as [d|]; destruct pq as [|x [|y pq]]; destruct gq as [|u [|v gq]];
+      try contradiction; decompose [and] Hsv; clear Hsv; subst; destruct cm as [dm|]; finish Hs. Qed.
+
+  Lemma core_capp ss cs pq gq P now t cs' :
+    xinv_core ss cs pq gq P now -> now <= t -> wcond ss cs pq gq t = true ->
+    cstep c cs t CApp = Some cs' -> xinv_core ss cs' pq gq P t.
+  Proof. intros Hinv Hn Hw Hs. unfold cstep in Hs. destruct (cph cs); inversion Hs; subst.
+    all: eapply xinv_core_mono; eauto. Qed.
+
+  Lemma core_ctimeout ss cs pq gq P now t cs' :
+    xinv_core ss cs pq gq P now -> now <= t -> wcond ss cs pq gq t = true ->
+    cstep c cs t CTimeout = Some cs' -> False.
+  Proof. intros Hinv Hn Hw Hs. unfold wcond in Hw. destruct Hc as (HI & HT & HD); destruct Hl as (HLd & HLu & HL);
+    destruct Hinv as (HP & Hcl & Hsv); destruct ss as [sp sm]; destruct cs as [cp cm]; simpl in *;
+    destruct cp as [a|]; [|contradiction]; destruct Hcl as [Ha Hcm];
+    unfold sdeadline, cdeadline, head_deadline, within in Hw; simpl in Hw.
+    destruct sp as [s|s|]; destruct sm as [d|]; destruct pq as [|x [|y pq]]; destruct gq as [|u [|v gq]];
+      try contradiction; decompose [and] Hsv; clear Hsv; subst;
+      unfold cstep in Hs; simpl in Hs; destruct cm as [dm|]; ifs; try discriminate; zb; lia. Qed.
+
+  Lemma core_dping ss cs s rest gq P now t cs' :
+    xinv_core ss cs (s :: rest) gq P now -> now <= t -> wcond ss cs (s :: rest) gq t = true ->
+    s <= t -> cstep c cs t CPing = Some cs' -> xinv_core ss cs' rest (gq ++ [t]) t t.
+  Proof. intros Hinv Hn Hw Hle Hs. unfold wcond in Hw. destruct Hc as (HI & HT & HD); destruct Hl as (HLd & HLu & HL);
+    destruct Hinv as (HP & Hcl & Hsv); destruct ss as [sp sm]; destruct cs as [cp cm]; simpl in *;
+    destruct cp as [a|]; [|contradiction]; destruct Hcl as [Ha Hcm];
+    unfold sdeadline, cdeadline, head_deadline, within in Hw; simpl in Hw.
+    destruct sp as [s0|s0|]; destruct sm as [d|]; destruct rest as [|y rest]; destruct gq as [|u [|v gq]];
+      try contradiction; decompose [and] Hsv; clear Hsv; subst; destruct cm as [dm|]; finish Hs. Qed.
+
+  Lemma core_dpong ss cs pq p rest P now t ss' :
+    xinv_core ss cs pq (p :: rest) P now -> now <= t -> wcond ss cs pq (p :: rest) t = true ->
+    p <= t -> sstep c ss t SPong = Some ss' -> xinv_core ss' cs pq rest P t.
+  Proof. intros Hinv Hn Hw Hle Hs. unfold wcond in Hw. destruct Hc as (HI & HT & HD); destruct Hl as (HLd & HLu & HL);
+    destruct Hinv as (HP & Hcl & Hsv); destruct ss as [sp sm]; destruct cs as [cp cm]; simpl in *;
+    destruct cp as [a|]; [|contradiction]; destruct Hcl as [Ha Hcm];
+    unfold sdeadline, cdeadline, head_deadline, within in Hw; simpl in Hw.
+    destruct sp as [s0|s0|]; destruct sm as [d|]; destruct pq as [|x [|y pq]]; destruct rest as [|v rest];
+      try contradiction; decompose [and] Hsv; clear Hsv; subst; destruct cm as [dm|]; finish Hs. Qed.
+
   Lemma xinv_step st now t e st' :
     xinv st now -> now <= t -> xwithin c l st t = true -> x_no_ext e = true ->
-    xstep c st t e = Some st' -> is_timeout e = false /\ xinv st' t.
+    xstep c l st t e = Some st' -> is_timeout e = false /\ xinv st' t.
   Proof.
-    destruct Hc as (HI & HT & HD). destruct Hl as (HLd & HLu & HL).
-    intros (HP & Hcl & Hsv) Hn Hw Hx Hs.
-    destruct st as [[sp sm] [cp cm] pq gq P]; simpl in *.
-    destruct cp as [a|]; [|contradiction]. destruct Hcl as [Ha Hcm].
-    unfold xwithin, sdeadline, cdeadline, head_deadline, within in Hw; simpl in Hw.
-    destruct sp as [s|s|]; destruct sm as [d|]; destruct pq as [|x [|y pq]]; destruct gq as [|u [|v gq]];
-      try contradiction.
-    - (* A *)
-      destruct Hsv as [Hs1 Hs2].
-      destruct e as [es|ec| |]; [destruct es|destruct ec| |]; simpl in Hs, Hx; try discriminate;
-        unfold sstep, cstep, deposit in Hs; simpl in Hs; destruct cm as [dm|]; ifs; try discriminate;
-        inversion Hs; subst; clear Hs; zb; unfold xinv; simpl; ifs; zb; repeat split; try lia.
-    - (* D *)
-      destruct Hsv as (Hd1 & Hd2 & Hd3 & Hd4).
-      destruct e as [es|ec| |]; [destruct es|destruct ec| |]; simpl in Hs, Hx; try discriminate;
-        unfold sstep, cstep, deposit in Hs; simpl in Hs; destruct cm as [dm|]; ifs; try discriminate;
-        inversion Hs; subst; clear Hs; zb; unfold xinv; simpl; ifs; zb; repeat split; try lia.
-    - (* C *)
-      destruct Hsv as (Hc1 & Hc2 & Hc3). subst u.
-      destruct e as [es|ec| |]; [destruct es|destruct ec| |]; simpl in Hs, Hx; try discriminate;
-        unfold sstep, cstep, deposit in Hs; simpl in Hs; destruct cm as [dm|]; ifs; try discriminate;
-        inversion Hs; subst; clear Hs; zb; unfold xinv; simpl; ifs; zb; repeat split; try lia.
-    - (* B *)
-      destruct Hsv as (Hb1 & Hb2 & Hb3). subst x.
-      destruct e as [es|ec| |]; [destruct es|destruct ec| |]; simpl in Hs, Hx; try discriminate;
-        unfold sstep, cstep, deposit in Hs; simpl in Hs; destruct cm as [dm|]; ifs; try discriminate;
-        inversion Hs; subst; clear Hs; zb; unfold xinv; simpl; ifs; zb; repeat split; try lia.
+    intros Hinv Hn Hw Hx Hs. unfold xinv in *. unfold xwithin in Hw.
+    destruct st as [ss cs xd gq P]; simpl in *. fold (wcond ss cs (pings_of xd) gq t) in Hw.
+    destruct e as [es|ec|p| | |]; unfold xstep in Hs; cbn [xs xc xdown xpong xlast] in Hs.
+    - destruct es; try discriminate; simpl in Hx; try discriminate.
+      + destruct (sstep c ss t SWake) as [ss'|] eqn:E; [|discriminate]. inversion Hs; subst; simpl.
+        split; [reflexivity|]. rewrite pings_of_app. simpl. eapply core_wake; eauto.
+      + destruct (sstep c ss t STake) as [ss'|] eqn:E; [|discriminate]. inversion Hs; subst; simpl.
+        split; [reflexivity|]. eapply core_take; eauto.
+      + destruct (sstep c ss t STimeout) as [ss'|] eqn:E; [|discriminate].
+        exfalso. eapply core_stimeout; eauto.
+      + destruct (sstep c ss t SApp) as [ss'|] eqn:E; [|discriminate]. inversion Hs; subst; simpl.
+        split; [reflexivity|]. eapply core_sapp; eauto.
+    - destruct ec; try discriminate; simpl in Hx; try discriminate.
+      + destruct (cstep c cs t CRearm) as [cs'|] eqn:E; [|discriminate]. inversion Hs; subst; simpl.
+        split; [reflexivity|]. eapply core_rearm; eauto.
+      + destruct (cstep c cs t CTimeout) as [cs'|] eqn:E; [|discriminate].
+        exfalso. eapply core_ctimeout; eauto.
+      + destruct (cstep c cs t CApp) as [cs'|] eqn:E; [|discriminate]. inversion Hs; subst; simpl.
+        split; [reflexivity|]. eapply core_capp; eauto.
+    - (* a message / NOOP is queued: the pings in the downlink are the same *)
+      destruct p; try discriminate; inversion Hs; subst; simpl; (split; [reflexivity|]);
+        rewrite pings_of_app; simpl; rewrite app_nil_r; eapply xinv_core_mono; eauto.
+    - (* transport swap: pings are carried over *)
+      inversion Hs; subst; simpl. split; [reflexivity|].
+      rewrite (pings_of_filter _ _ Hkeep). eapply xinv_core_mono; eauto.
+    - (* delivery of the head of the downlink *)
+      destruct xd as [|[s| |] rest]; try discriminate.
+      + destruct (s <=? t) eqn:E; [|discriminate]. apply Z.leb_le in E.
+        destruct (cstep c cs t CPing) as [cs'|] eqn:E2; [|discriminate]. inversion Hs; subst; simpl.
+        split; [reflexivity|]. simpl in Hinv, Hw. eapply core_dping; eauto.
+      + inversion Hs; subst; simpl. split; [reflexivity|]. eapply xinv_core_mono; eauto.
+      + inversion Hs; subst; simpl. split; [reflexivity|]. eapply xinv_core_mono; eauto.
+    - (* pong delivery *)
+      destruct gq as [|p rest]; try discriminate.
+      destruct (p <=? t) eqn:E; [|discriminate]. apply Z.leb_le in E.
+      destruct (sstep c ss t SPong) as [ss'|] eqn:E2; [|discriminate]. inversion Hs; subst; simpl.
+      split; [reflexivity|]. eapply core_dpong; eauto.
   Qed.
 
   Lemma xrun_inv evs : forall st now r,
@@ -90,7 +228,7 @@ Section Compose.
     - inversion Hrun; subst; simpl. split; [constructor|exact HP].
     - destruct ((now <=? t) && xwithin c l st t && x_no_ext e) eqn:E; [|discriminate].
       apply andb_true_iff in E as [E Eg]. apply andb_true_iff in E as [En Ew].
-      destruct (xstep c st t e) as [st1|] eqn:Es; [|discriminate].
+      destruct (xstep c l st t e) as [st1|] eqn:Es; [|discriminate].
       destruct (xinv_step st now t e st1) as [HQ HP1]; auto. { apply Z.leb_le; exact En. }
       destruct (IH st1 t r HP1 Hrun) as [HF HPr]. split; [constructor; [exact HQ|exact HF]|exact HPr].
   Qed.
@@ -106,11 +244,11 @@ Section Compose.
     destruct ((now1 <=? t_end) && xwithin c l st1 t_end) eqn:E; [|discriminate].
     inversion Hv; subst.
     destruct (xrun_inv evs (xinit start) start (st, now1)) as [HF HP]; auto.
-    - unfold xinv, xinit, sinit, cinit; simpl. repeat split; lia.
-    - split; [exact HF|]. simpl in HP. destruct HP as (_ & Hcl & Hsv).
-      unfold s_reason, c_reason. destruct st as [[sp sm] [cp cm] pq gq P]; simpl in *.
+    - unfold xinv, xinv_core, xinit, sinit, cinit; simpl. repeat split; lia.
+    - split; [exact HF|]. simpl in HP. unfold xinv, xinv_core in HP. destruct HP as (_ & Hcl & Hsv).
+      unfold s_reason, c_reason. destruct st as [[sp sm] [cp cm] xd gq P]; simpl in *.
       split.
-      + destruct sp; auto. destruct sm; destruct pq; destruct gq; contradiction.
+      + destruct sp; auto. destruct sm; destruct (pings_of xd); destruct gq; contradiction.
       + destruct cp; auto. contradiction.
   Qed.
 End Compose.
